@@ -51,6 +51,10 @@ static void add(std::vector<Target> &V, const std::string &name, const std::stri
 	// TMCG_Stack / TMCG_StackSecret operator>> allocate TMCG_MAX_STACK_CHARS (671 MB) per call: a thinned catalogue
 	if (name.find("stack") == 0 && name.find(".istream") != std::string::npos)
 		t.heavy = true;
+	// a key whose self-signature verifies is checked through all 272 NIZK rounds, each hashing the growing transcript
+	// (about 1 s of CPU for a full check): a thinned catalogue
+	if (name == "pubkey.import-check-resigned")
+		t.stride = thorough ? 4 : 16;
 	V.push_back(t);
 }
 
